@@ -82,6 +82,19 @@ let cmd_plan args =
         | Bulk os -> "B" ^ String.concat "," (List.map (fun o -> string_of_int (fst o)) os)) res))
   | _ -> failwith "plan: bad args"
 
+(* segs <target> <size0> | l0,l1,...  ->  groups of indices per pack, separated by spaces *)
+let cmd_segs args =
+  match List.map String.trim (String.split_on_char '|' args) with
+  | [hd; ls] ->
+      (match split_on ' ' hd with
+       | [target; size0] ->
+           let lens = if ls = "" then [] else ints ls in
+           let objs = List.mapi (fun i l -> (i, nat_of_int l)) lens in
+           let res = segs (fun o -> snd o) (nat_of_int (List.length objs + 1)) (nat_of_int (int_of_string target)) (nat_of_int (int_of_string size0)) objs in
+           print_endline (String.concat " " (List.map (fun sg -> String.concat "," (List.map (fun o -> string_of_int (fst o)) sg)) res))
+       | _ -> failwith "segs: bad header")
+  | _ -> failwith "segs: bad args"
+
 (* ---- streams ---- *)
 let n_of_int n = if n = 0 then N0 else Npos (pos_of_int n)
 let int_of_n = function N0 -> 0 | Npos p -> int_of_pos p
@@ -302,7 +315,7 @@ let run_trace_block () =
     (String.concat "/" (List.map event_s prog_events)) (dump_world wf)
 
 let () =
-  let extra = ref [("pick", cmd_pick); ("estimate", cmd_estimate); ("plan", cmd_plan); ("por", cmd_por); ("bio", cmd_bio true); ("fio", cmd_bio false); ("zsd", cmd_zsd)] in
+  let extra = ref [("pick", cmd_pick); ("estimate", cmd_estimate); ("plan", cmd_plan); ("segs", cmd_segs); ("por", cmd_por); ("bio", cmd_bio true); ("fio", cmd_bio false); ("zsd", cmd_zsd)] in
   try
     while true do
       let line = input_line stdin in
